@@ -1,5 +1,8 @@
 import rx
 import rxsci as rs
+from rxsci.internal.utils import NotSet
+
+NO_VALUE = NotSet()
 
 
 def distinct_until_changed(key_mapper=None):
@@ -32,7 +35,7 @@ def distinct_until_changed(key_mapper=None):
         return (False, i, key)
 
     return rx.pipe(
-        rs.ops.scan(_distinct, seed=(False, None, None)),
+        rs.ops.scan(_distinct, seed=(False, None, NO_VALUE)),
         rs.ops.filter(lambda i: i[0] is True),
         rs.ops.map(lambda i: i[1]),
     )
